@@ -158,6 +158,11 @@ impl RandomProp for Sources {
     }
 }
 
+/// End (exclusive) of record i in the .shp.
+fn ends_of(spans: &[(usize, usize)], i: usize) -> usize {
+    spans[i].0 + 8 + spans[i].1
+}
+
 fn is_io(e: &Error) -> bool {
     matches!(e, Error::IoError(_))
 }
@@ -320,6 +325,68 @@ fn check_sources(c: &SrcCase, ctx: &mut Ctx) -> Result<(), Fail> {
         match res {
             Ok(r) => r?,
             Err(p) => fail!("panic", "{}: reader panics: {}", what, p),
+        }
+    }
+    // a sample of the same truncations on disk, read by path: next to the complete .shx (index-driven) and alone
+    {
+        let mut ts: Vec<usize> = vec![100, len.saturating_sub(1), len];
+        for (o, l) in &enc.rec_spans {
+            ts.extend([*o, o + 3, o + 8, o + 9, o + 8 + l / 2, (o + 8 + l).saturating_sub(1)]);
+        }
+        ts.retain(|t| *t >= 100 && *t <= len);
+        ts.sort();
+        ts.dedup();
+        if ts.len() > 28 {
+            let step = ts.len() as f64 / 28.0;
+            ts = (0..28).map(|i| ts[(i as f64 * step) as usize]).collect();
+        }
+        // only files whose records are stored in index order without gaps can be compared record by record
+        let contiguous = enc.rec_spans.iter().scan(100usize, |p, (o, l)| { let ok = *o == *p; *p = o + 8 + l; Some(ok) }).all(|x| x);
+        let p = crate::common::scratch_dir().join("c13-cut.shp");
+        let px = p.with_extension("shx");
+        for with_index in [true, false] {
+            if !with_index && !contiguous {
+                continue;
+            }
+            for &t in &ts {
+                inner += 1;
+                std::fs::write(&p, &enc.shp[..t]).map_err(|e| Fail::new("disk-io", e.to_string()))?;
+                if with_index {
+                    std::fs::write(&px, &enc.shx).map_err(|e| Fail::new("disk-io", e.to_string()))?;
+                } else {
+                    let _ = std::fs::remove_file(&px);
+                }
+                let what = format!(".shp on disk truncated to {} of {} bytes, opened by path {}", t, len, if with_index { "next to its complete .shx" } else { "without .shx" });
+                let res = guard(|| -> Result<(), Fail> {
+                    let mut r = ShapeReader::from_path(&p).map_err(|e| Fail::new("spurious-error", format!("{}: open fails: {}", what, err_str(&e))))?;
+                    let mut it = r.iter_shapes();
+                    for i in 0..n {
+                        let whole = ends_of(&enc.rec_spans, i) <= t;
+                        match it.next() {
+                            Some(Ok(s)) => {
+                                ensure!(whole, "invented-shape", "{}: record {} is cut but a shape ({}) is returned", what, i, view_shape(&s).short());
+                                if let Err(msg) = cmp_read(&m.recs[i].geom, &view_shape(&s)) {
+                                    fail!("wrong-shape", "{}: record {} (wholly retained): {}", what, i, msg);
+                                }
+                            }
+                            Some(Err(e)) => {
+                                ensure!(!whole, "complete-record-lost", "{}: record {} is wholly retained but reading fails: {}", what, i, err_str(&e));
+                                ensure!(is_io(&e), "cut-not-io-error", "{}: the cut record {} is reported as {:?}, not an I/O error", what, i, e);
+                                return Ok(());
+                            }
+                            None => {
+                                ensure!(!whole, "complete-record-lost", "{}: record {} is wholly retained but iteration ended", what, i);
+                                fail!("cut-not-reported", "{}: iteration ends cleanly after {} of {} records", what, i, n);
+                            }
+                        }
+                    }
+                    Ok(())
+                });
+                match res {
+                    Ok(r) => r?,
+                    Err(pn) => fail!("panic", "{}: reader panics: {}", what, pn),
+                }
+            }
         }
     }
     // every truncation of the .shx with the full .shp
